@@ -64,12 +64,7 @@ func (r Int8) MAX(a, b Int8) Scalar {
 }
 /* -------------------------------------------------------------------------- */
 func (c Int8) ABS(a Int8) Scalar {
-  if c.Sign() == -1 {
-    c.NEG(a)
-  } else {
-    c.SET(a)
-  }
-  return c
+  return c.Abs(a)
 }
 /* -------------------------------------------------------------------------- */
 func (c Int8) NEG(a Int8) Int8 {
